@@ -1129,4 +1129,13 @@ StopEffectiveK == Known \/ StopEffective
 (* an accepted end_replication() ends the replication *)
 EndRepEffective == (Quiescent /\ endsOK > 0) => (rep = "ENDED" /\ rs = "ENDED" /\ pc["w"] = "Done")
 EndRepEffectiveK == Known \/ EndRepEffective
+
+(* ---- liveness (checked with TLC on every scenario under LiveSpec): commands return, the run thread parks or ends ---- *)
+(* fairness: both threads keep taking steps, and the clock advances: a spin wait that can only be ended by its         *)
+(* one-second limit does reach that limit (strong fairness on the time-out branch of the sleep points)                  *)
+TimeoutStep == (H4s \/ L9s \/ S9s \/ P4s) /\ last'.v = "timeout"
+LiveSpec == Spec /\ WF_vars(caller) /\ SF_vars(TimeoutStep)
+Settles == <>[]Quiescent                                        \* no livelock: every scenario ends in a quiescent state
+EndedThreadGone == [](rs = "ENDED" => <>(pc["w"] = "Done"))    \* after the replication end the run thread terminates
+EveryCommandReturns == \A k \in 1..Len(Script) : <>(Len(res) >= k)
 =============================================================================
